@@ -24,19 +24,24 @@ Theorem C11_pending_wakeup_not_lost : forall s, pc s = L3 -> notif s = true -> p
 Proof. exact wait_with_notification_does_not_block. Qed.
 
 (* stop() followed by wakeup(), any time after run()/block_on() began: the loop is `told`; that is stable under every step of
-   every thread until it returns, and the loop thread returns within three of its own steps - at most the iteration in
+   every thread until it returns, and the loop thread returns within five of its own steps - at most the iteration in
    progress is finished *)
 Theorem C11_stop_then_wakeup : forall s lg, stopf s = true -> pc s <> L0 -> told (do_notify s lg).
 Proof. exact stop_then_wakeup_told. Qed.
 Theorem C11_told_stable : forall s k, told s -> told (r_step s k) \/ exists b, pc (r_step s k) = LDone b.
 Proof. exact told_stable. Qed.
-Theorem C11_told_returns : forall s, told s -> exists b, pc (loop_step (loop_step (loop_step s))) = LDone b.
+Theorem C11_told_returns : forall s, told s -> exists b, pc (loop_step (loop_step (loop_step (loop_step (loop_step s))))) = LDone b.
 Proof. exact told_returns. Qed.
 (* run() never returns Ok, and block_on never returns None, without a stop request since it began *)
 Theorem C11_no_spurious_return : forall s, rinv s -> pc s = LDone false -> stop_req s = true.
 Proof. exact no_spurious_return. Qed.
 
 Example C11_nonvacuous :
-  let s := r_run true [false; true] [[RWake]; [RStop; RWakeup]] [0; 0; 0; 0; 1; 1; 1; 0; 0]%nat in
+  let s := r_run true [0; 1] [[RWake]; [RStop; RWakeup]] [0; 0; 0; 0; 1; 1; 1; 0; 0]%nat in
   pc s = LDone true /\ polls s = 2.
 Proof. vm_compute. split; reflexivity. Qed.
+(* a future that wakes itself inside its poll is polled again although no other thread ever signals *)
+Example C11_selfwake_nonvacuous :
+  let s := r_run true [2; 1] [] (repeat 0%nat 12) in
+  pc s = LDone true /\ polls s = 2 /\ wakes s = 1.
+Proof. vm_compute. repeat split; reflexivity. Qed.
